@@ -546,14 +546,19 @@ class Ovld:
                 f"There is already a method for {sigstring(sig.types)}"
             )
 
+        # Work on a copy, so that an interruption cannot leave a method
+        # registered at two tiebreak levels.
+        defns = dict(self._defns)
+
         def _set(sig, fn):
-            if sig in self._defns:
+            if sig in defns:
                 # Push down the existing handler with a lower tiebreak
                 msig = replace(sig, tiebreak=sig.tiebreak - 1)
-                _set(msig, self._defns[sig])
-            self._defns[sig] = fn
+                _set(msig, defns[sig])
+            defns[sig] = fn
 
         _set(sig, fn)
+        self._defns = defns
 
         self._update()
         return self
